@@ -185,7 +185,8 @@ def validate_hist(runs, work):
         rejected.append((live[k], verdict["stuck"]))
         live = live[k + 1:]            # the runs before it are explained already
     else:
-        raise ToolError("more than 25 rejected histories; giving up")
+        # many histories rejected: report the ones isolated so far (the remainder stays unvalidated)
+        return rejected, states
     return rejected, states
 
 
